@@ -278,6 +278,8 @@ def compare_output_strict(x, y):
         return False
 
     handled = set(("output_type", "data"))
+    # Ignored content should not steer the alignment of outputs
+    handled.update(_ignored_keys("/cells/*/outputs/*"))
 
     # Strict match on all keys we do not otherwise handle
     for k in xkeys - handled:
@@ -289,6 +291,23 @@ def compare_output_strict(x, y):
 
     # NB! Ignoring metadata and execution count
     return True
+
+
+def _is_ignored(path):
+    "Whether the differ configured for path ignores every change."
+    return path in notebook_differs and notebook_differs[path] is diff_ignore
+
+
+def _ignored_keys(path):
+    "The keys of the dict at path that are configured to be ignored."
+    keys = set()
+    if path in notebook_differs:
+        keys.update(getattr(notebook_differs[path], 'ignored_keys', ()))
+    if _is_ignored(path + "/metadata"):
+        keys.add("metadata")
+    if _is_ignored(path + "/execution_count"):
+        keys.add("execution_count")
+    return keys
 
 
 def compare_cell_approximate(x, y):
@@ -380,6 +399,9 @@ def compare_cell_strict(x, y):
 
 def compare_cell_by_ids(x, y):
     """Compare cells x,y strictly using cell IDs"""
+    if _is_ignored("/cells/*/id"):
+        # Ignored ids should not steer the alignment of cells
+        return compare_cell_strict(x, y)
     # Only consider equal if both have IDs and they match
     return 'id' in x and 'id' in y and x['id'] == y['id']
 
@@ -516,6 +538,8 @@ def diff_ignore_keys(inner_differ, ignore_keys):
             if e.key not in ignore_keys:
                 ret.append(e)
         return ret
+    ignored_diff.ignored_keys = (
+        set(ignore_keys) | set(getattr(inner_differ, 'ignored_keys', ())))
     return ignored_diff
 
 
